@@ -103,7 +103,7 @@ func newBackend(tag string, svcs []string) *backend {
 			b.mu.Lock()
 			b.calls++
 			b.mu.Unlock()
-			return tagReply(tag), nil
+			return tagReply(tag + "|" + full), nil
 		}
 		b.srv.RegisterService(MakeServiceDesc(sds[s], un, nil), struct{}{})
 	}
@@ -143,8 +143,9 @@ type OpEv struct {
 	CurSame bool   `json:"cursame"` // the published snapshot has the same fingerprint as before the call
 }
 type ProbeOut struct {
-	K  string `json:"k"` // served | unimplemented | notfound | other | panic
-	By string `json:"by"`
+	K    string `json:"k"` // served | unimplemented | notfound | other | panic
+	By   string `json:"by"`
+	Meth string `json:"meth"` // served: the full name of the method whose handler answered
 }
 type ProbeEv struct {
 	Ev    string     `json:"ev"`
@@ -170,6 +171,14 @@ var regBackendSvcs = map[string][]string{"local": {"A"}, "c1": {"A"}, "c2": {"A"
 
 // wideQuery makes URL parameter parsing take milliseconds: it sits between the route match and the handler pick
 var wideQuery = strings.Repeat("r=x&", 20000) + "r=x"
+
+// servedBy splits a reply's id ("backend|/pkg.Service/Method") into who answered and for which method.
+func servedBy(id string) ProbeOut {
+	if i := strings.Index(id, "|"); i >= 0 {
+		return ProbeOut{K: "served", By: id[:i], Meth: id[i+1:]}
+	}
+	return ProbeOut{K: "served", By: id}
+}
 
 func probeOnce(mux *larking.Mux, proto_, full, path string) (out ProbeOut) {
 	return probeOnceQ(mux, proto_, full, path, "")
@@ -199,7 +208,7 @@ func probeOnceQ(mux *larking.Mux, proto_, full, path, rawQuery string) (out Prob
 			if err := protojson.Unmarshal(w.Body.Bytes(), rep); err != nil {
 				return ProbeOut{K: "other", By: "undecodable"}
 			}
-			return ProbeOut{K: "served", By: rep.Get(repDesc().Fields().ByName("id")).String()}
+			return servedBy(rep.Get(repDesc().Fields().ByName("id")).String())
 		case 501:
 			return ProbeOut{K: "unimplemented"}
 		case 404:
@@ -231,7 +240,7 @@ func probeOnceQ(mux *larking.Mux, proto_, full, path, rawQuery string) (out Prob
 			if err := proto.Unmarshal(b[5:], rep); err != nil {
 				return ProbeOut{K: "other", By: "undecodable"}
 			}
-			return ProbeOut{K: "served", By: rep.Get(repDesc().Fields().ByName("id")).String()}
+			return servedBy(rep.Get(repDesc().Fields().ByName("id")).String())
 		case "12":
 			return ProbeOut{K: "unimplemented"}
 		case "5":
@@ -319,7 +328,7 @@ func (w *regWorld) apply(op RegOp, caseID int) OpEv {
 		case "reglocal":
 			for _, s := range regBackendSvcs["local"] {
 				un := func(ctx context.Context, full string, req *dynamicpb.Message) (proto.Message, error) {
-					return tagReply("local"), nil
+					return tagReply("local|" + full), nil
 				}
 				if err := larking.VerifRegisterService(w.mux, MakeServiceDesc(sds[s], un, nil), struct{}{}); err != nil {
 					ev.Err = err.Error()
@@ -346,7 +355,7 @@ func (w *regWorld) apply(op RegOp, caseID int) OpEv {
 				return
 			}
 			un := func(ctx context.Context, full string, req *dynamicpb.Message) (proto.Message, error) {
-				return tagReply("bad"), nil
+				return tagReply("bad|" + full), nil
 			}
 			err = larking.VerifRegisterService(w.mux, MakeServiceDesc(d.(protoreflect.ServiceDescriptor), un, nil), struct{}{})
 			if err != nil {
